@@ -321,8 +321,18 @@ pub fn judge(spec: &Spec, u: Option<&HirSpec>, s: Option<&HirSpec>) -> Vec<Findi
                     out.push(f("C07", "component_replaced", format!("component {} has fields {:?} but its schema declares {:?} (replaced by an invented schema?)", name, got, want)));
                     continue;
                 }
+                let required_list: Vec<String> = match &sc.kind {
+                    Kind::Object { required, .. } => required.clone(),
+                    _ => vec![],
+                };
                 for (k, r) in props {
                     let fld = &st.fields[k];
+                    // C04: a member may be absent / null exactly when it is nullable or not listed as required
+                    let nullable = resolve(spec, r).map(|t| t.nullable).unwrap_or(false);
+                    let want_optional = nullable || !required_list.contains(k);
+                    if fld.optional != want_optional {
+                        out.push(f("C04", "", format!("member {}.{}: nullable={} listed-required={} but optional={} in the generated model", name, k, nullable, required_list.contains(k), fld.optional)));
+                    }
                     let want = doc_ty(spec, r, 20);
                     if of_ty(&fld.ty) != want {
                         out.push(f("C08", "", format!("field {}.{} has type {:?}, documented type {:?}", name, k, of_ty(&fld.ty), want)));
